@@ -2,7 +2,6 @@ package main
 
 import (
 	"fmt"
-	"go/ast"
 	"go/constant"
 	"go/types"
 	"sort"
@@ -455,89 +454,164 @@ func ruleC07R1(w *World, r *Report) {
 
 // ---- printer table ---------------------------------------------------------------------------
 
-type precTable struct {
-	byType map[string]string            // node type -> prec const ("" when decided by Op)
-	byOp   map[string]map[string]string // node type -> op const -> prec const
-	value  map[string]int64             // prec const -> value
-	pos    string
+// precSem reads the printer's precedence table by interpretation (CONCR): exprPrec and paren are followed with an
+// abstract operand of a given dynamic type and operator, whatever their shape (type switch, constant switch, lookup
+// table, helper functions, either direction of the numeric scale).
+type precSem struct {
+	w         *World
+	prec, par *ssa.Function
+	pos       string
+	names     map[int64]string
+	precIdx   int // index of the precedence parameter of paren
+	exprIdx   int
+	cache     map[string]concrOutcome
 }
 
-func (w *World) readExprPrec() (*precTable, string) {
-	fd := findFuncDecl(w.Ast, "", "exprPrec")
-	if fd == nil {
+func (w *World) readExprPrec() (*precSem, string) {
+	ps := &precSem{w: w, names: map[int64]string{}, cache: map[string]concrOutcome{}}
+	ps.prec = w.fn(w.Ast, "exprPrec")
+	if ps.prec == nil {
 		return nil, "ast.exprPrec not found"
 	}
-	info := w.Ast.TypesInfo
-	pt := &precTable{byType: map[string]string{}, byOp: map[string]map[string]string{}, value: map[string]int64{}, pos: w.pos(fd.Pos())}
-	var ts *ast.TypeSwitchStmt
-	for _, st := range fd.Body.List {
-		if x, ok := st.(*ast.TypeSwitchStmt); ok {
-			ts = x
-		}
+	ps.pos = w.pos(ps.prec.Pos())
+	if ps.prec.Signature.Results().Len() != 1 || len(ps.prec.Params) != 1 {
+		return nil, "ast.exprPrec is not a function of one operand returning one value"
 	}
-	if ts == nil {
-		return nil, "exprPrec is not a type switch"
-	}
-	retConst := func(stmts []ast.Stmt) string {
-		if len(stmts) == 1 {
-			if ret, ok := stmts[0].(*ast.ReturnStmt); ok && len(ret.Results) == 1 {
-				if id, ok := ret.Results[0].(*ast.Ident); ok {
-					if c, ok := info.Uses[id].(*types.Const); ok {
-						v, _ := constant.Int64Val(c.Val())
-						pt.value[c.Name()] = v
-						return c.Name()
-					}
-				}
+	rt := namedOf(ps.prec.Signature.Results().At(0).Type())
+	if rt != nil {
+		for n, v := range w.constsOfType(rt.Obj().Name()) {
+			if i, ok := constant.Int64Val(v); ok {
+				ps.names[i] = n
 			}
 		}
-		return ""
 	}
-	for _, c := range ts.Body.List {
-		cc := c.(*ast.CaseClause)
-		var tnames []string
-		for _, e := range cc.List {
-			if n := namedOf(info.Types[e].Type); n != nil {
-				tnames = append(tnames, n.Obj().Name())
-			}
-		}
-		if rc := retConst(cc.Body); rc != "" {
-			for _, t := range tnames {
-				pt.byType[t] = rc
-			}
+	// the function that decides about parentheses: a package-level function of package ast that calls exprPrec and
+	// returns a string, with one parameter of the precedence type and one expression
+	for _, fn := range w.ModFns {
+		if fnPkgPath(fn) != modRoot+"/ast" || fn.Parent() != nil || fn.Signature.Recv() != nil || fn == ps.prec {
 			continue
 		}
-		// inner switch on the operator
-		for _, st := range cc.Body {
-			sw, ok := st.(*ast.SwitchStmt)
-			if !ok {
-				continue
-			}
-			for _, t := range tnames {
-				pt.byOp[t] = map[string]string{}
-			}
-			for _, ic := range sw.Body.List {
-				icc := ic.(*ast.CaseClause)
-				rc := retConst(icc.Body)
-				for _, e := range icc.List {
-					if id, ok := e.(*ast.Ident); ok {
-						if k, ok := info.Uses[id].(*types.Const); ok {
-							for _, t := range tnames {
-								pt.byOp[t][k.Name()] = rc
-							}
-						}
-					}
+		res := fn.Signature.Results()
+		if res.Len() != 1 || !isStringType(res.At(0).Type()) || len(fn.Params) != 2 {
+			continue
+		}
+		calls := false
+		for _, b := range fn.Blocks {
+			for _, in := range b.Instrs {
+				if c, ok := in.(*ssa.Call); ok && c.Call.StaticCallee() == ps.prec {
+					calls = true
 				}
 			}
 		}
+		if !calls {
+			continue
+		}
+		pi, ei := -1, -1
+		for i, p := range fn.Params {
+			if types.Identical(p.Type(), ps.prec.Signature.Results().At(0).Type()) {
+				pi = i
+			} else if w.isAstExpr(p.Type()) {
+				ei = i
+			}
+		}
+		if pi >= 0 && ei >= 0 {
+			if ps.par != nil {
+				return nil, "two functions of package ast decide about parentheses from exprPrec: " + funcName(ps.par) + ", " + funcName(fn)
+			}
+			ps.par, ps.precIdx, ps.exprIdx = fn, pi, ei
+		}
 	}
-	return pt, ""
+	if ps.par == nil {
+		return nil, "no function of package ast compares exprPrec of an operand with a given level (paren)"
+	}
+	return ps, ""
+}
+
+func (ps *precSem) operand(typ, opName string) cval {
+	d := cval{kind: cDyn, typ: typ, fields: map[string]cval{}}
+	if opName != "" {
+		if c, ok := ps.w.Ast.Types.Scope().Lookup(opName).(*types.Const); ok {
+			d.fields["Op"] = cval{kind: cConst, c: c.Val()}
+		}
+	}
+	return d
+}
+
+// precOf: the value exprPrec returns for an operand; err is "" or says why there is none (panic / not decided).
+func (ps *precSem) precOf(typ, opName string) (int64, string, bool) {
+	k := typ + "/" + opName
+	out, ok := ps.cache[k]
+	if !ok {
+		out = ps.w.newConcr().run(ps.prec, []cval{ps.operand(typ, opName)}, 0)
+		ps.cache[k] = out
+	}
+	switch out.status {
+	case "panic":
+		return 0, "exprPrec has no entry for this operator/node type: SQL() panics (" + out.why + ")", false
+	case "unknown":
+		return 0, "exprPrec could not be followed for this operand: " + out.why, true
+	}
+	if len(out.vals) == 1 && out.vals[0].kind == cConst {
+		if v, ok := constant.Int64Val(out.vals[0].c); ok {
+			return v, "", false
+		}
+	}
+	return 0, "exprPrec does not return a constant for this operand", true
+}
+
+func (ps *precSem) name(v int64) string {
+	if n, ok := ps.names[v]; ok {
+		return n
+	}
+	return fmt.Sprint(v)
+}
+
+// wraps: does paren(level, operand) put parentheses around the operand?
+func (ps *precSem) wraps(level int64, typ, opName string) (bool, string) {
+	args := make([]cval, 2)
+	args[ps.precIdx] = cval{kind: cConst, c: constant.MakeInt64(level)}
+	args[ps.exprIdx] = ps.operand(typ, opName)
+	k := fmt.Sprintf("w%d/%s/%s", level, typ, opName)
+	out, ok := ps.cache[k]
+	if !ok {
+		out = ps.w.newConcr().run(ps.par, args, 0)
+		ps.cache[k] = out
+	}
+	if out.status != "return" || len(out.vals) != 1 {
+		return false, funcName(ps.par) + " could not be followed: " + out.status + " " + out.why
+	}
+	v := out.vals[0]
+	var parts []string
+	switch v.kind {
+	case cStr:
+		parts = v.parts
+	case cConst:
+		if v.c.Kind() == constant.String {
+			parts = []string{constant.StringVal(v.c)}
+		}
+	default:
+		return false, funcName(ps.par) + " returns a value that is not a concatenation"
+	}
+	open, close := false, false
+	for _, p := range parts {
+		if strings.Contains(p, "(") {
+			open = true
+		}
+		if strings.Contains(p, ")") {
+			close = true
+		}
+	}
+	if open != close {
+		return false, funcName(ps.par) + " prints an unbalanced parenthesis"
+	}
+	return open, ""
 }
 
 func ruleC07R2(w *World, r *Report) {
 	const rule = "C07/R2"
-	r.rule(rule, "exprPrec is order-isomorphic to the parser's levels for every operator and node type of the expression grammar", 20)
-	pt, err := w.readExprPrec()
-	if pt == nil {
+	r.rule(rule, "the printer's table is order-isomorphic to the parser's levels: for every two operators/node types x, y of the expression grammar, paren(exprPrec(y), x) — both functions followed by interpretation, whatever their shape — adds parentheses exactly when x binds looser than y in the parser", 20)
+	ps, err := w.readExprPrec()
+	if ps == nil {
 		r.errorf("%s", err)
 		return
 	}
@@ -548,11 +622,13 @@ func ruleC07R2(w *World, r *Report) {
 			lv = append(lv, l)
 		}
 	}
-	// rank: index in lv, loosest = 0; printer: larger prec value = looser
+	// rank: index in lv, loosest = 0
 	type item struct {
-		name string
-		rank int
-		prec string
+		name, typ, op string
+		rank          int
+		prec          int64
+		err           string
+		undec         bool
 	}
 	var items []item
 	for i, l := range lv {
@@ -561,14 +637,16 @@ func ruleC07R2(w *World, r *Report) {
 			if l.unary && !l.binary {
 				t = "UnaryExpr"
 			}
-			p := pt.byOp[t][opName]
-			items = append(items, item{t + "/" + opName, i, p})
+			items = append(items, item{name: t + "/" + opName, typ: t, op: opName, rank: i})
 		}
 		for o := range l.others {
-			items = append(items, item{o, i, pt.byType[o]})
+			items = append(items, item{name: o, typ: o, rank: i})
 		}
 	}
 	sort.Slice(items, func(i, j int) bool { return items[i].name < items[j].name })
+	for i := range items {
+		items[i].prec, items[i].err, items[i].undec = ps.precOf(items[i].typ, items[i].op)
+	}
 	seen := map[string]bool{}
 	for _, it := range items {
 		if seen[it.name] {
@@ -576,27 +654,41 @@ func ruleC07R2(w *World, r *Report) {
 		}
 		seen[it.name] = true
 		construct := "exprPrec(" + it.name + ")"
-		if it.prec == "" {
-			r.bad(rule, construct, pt.pos, "exprPrec has no entry for this operator/node type: SQL() panics with \"exprPrec: unexpected\"")
+		if it.err != "" {
+			if it.undec {
+				r.undecided(rule, construct, ps.pos, it.err)
+			} else {
+				r.bad(rule, construct, ps.pos, it.err)
+			}
 			continue
 		}
-		bad := ""
+		bad, und := "", ""
 		for _, o := range items {
-			if o.prec == "" {
+			if o.err != "" {
 				continue
 			}
-			a, b := pt.value[it.prec], pt.value[o.prec]
+			wr, e := ps.wraps(o.prec, it.typ, it.op)
+			if e != "" {
+				und = e
+				break
+			}
+			want := it.rank < o.rank // it binds looser than o
 			switch {
-			case it.rank < o.rank && !(a > b): // it is looser than o
-				bad = fmt.Sprintf("%s binds looser than %s in the parser, but exprPrec gives %s (%d) vs %s (%d)", it.name, o.name, it.prec, a, o.prec, b)
-			case it.rank == o.rank && a != b:
-				bad = fmt.Sprintf("%s and %s are on the same parser level, but exprPrec gives %s vs %s", it.name, o.name, it.prec, o.prec)
+			case want && !wr:
+				bad = fmt.Sprintf("%s binds looser than %s in the parser, but as an operand of %s (level %s) it is printed without parentheses (its level is %s)", it.name, o.name, o.name, ps.name(o.prec), ps.name(it.prec))
+			case !want && wr && it.rank == o.rank:
+				bad = fmt.Sprintf("%s and %s are on the same parser level, but the printer puts %s in parentheses under %s (%s vs %s)", it.name, o.name, it.name, o.name, ps.name(it.prec), ps.name(o.prec))
+			case !want && wr:
+				bad = fmt.Sprintf("%s binds tighter than %s in the parser, but the printer puts it in parentheses under %s (%s vs %s)", it.name, o.name, o.name, ps.name(it.prec), ps.name(o.prec))
 			}
 		}
-		if bad != "" {
-			r.bad(rule, construct, pt.pos, bad)
-		} else {
-			r.ok(rule, construct, pt.pos, fmt.Sprintf("%s, consistent with parser level %d (%s)", it.prec, it.rank+1, funcName(lv[it.rank].fn)))
+		switch {
+		case und != "":
+			r.undecided(rule, construct, ps.pos, und)
+		case bad != "":
+			r.bad(rule, construct, ps.pos, bad)
+		default:
+			r.ok(rule, construct, ps.pos, fmt.Sprintf("%s, consistent with parser level %d (%s) against all %d operators and level types", ps.name(it.prec), it.rank+1, funcName(lv[it.rank].fn), len(items)))
 		}
 	}
 }
@@ -671,9 +763,9 @@ func onlyAllocs(v ssa.Value, seen map[ssa.Value]bool) bool {
 // value: paren() then never wraps it, and exprPrec never reaches its fall-through.
 func ruleC07R4(w *World, r *Report) {
 	const rule = "C07/R4"
-	r.rule(rule, "every struct type implementing ast.Expr (except the Bad* placeholders) has its own entry in exprPrec; the types that no precedence level of the parser produces (atoms) all carry the smallest precedence value, so paren() never adds parentheses around them", 40)
-	pt, err := w.readExprPrec()
-	if pt == nil {
+	r.rule(rule, "every struct type implementing ast.Expr (except the Bad* placeholders) has its own entry in exprPrec (followed by interpretation: it returns, it does not reach the fall-through); the types that no precedence level of the parser produces (atoms) are never put in parentheses by paren() under any operator of the grammar", 40)
+	ps, err := w.readExprPrec()
+	if ps == nil {
 		r.errorf("%s", err)
 		return
 	}
@@ -688,36 +780,80 @@ func ruleC07R4(w *World, r *Report) {
 		return
 	}
 	levelType := map[string]bool{"BinaryExpr": true, "UnaryExpr": true}
+	type opItem struct {
+		name string
+		prec int64
+	}
+	var ops []opItem
 	for _, l := range w.extractLevels(nil) {
 		for o := range l.others {
 			levelType[o] = true
+			if v, e, _ := ps.precOf(o, ""); e == "" {
+				ops = append(ops, opItem{o, v})
+			}
+		}
+		for _, opName := range l.ops {
+			t := "BinaryExpr"
+			if l.unary && !l.binary {
+				t = "UnaryExpr"
+			}
+			if v, e, _ := ps.precOf(t, opName); e == "" {
+				ops = append(ops, opItem{t + "/" + opName, v})
+			}
 		}
 	}
-	var min int64
-	first := true
-	for _, v := range pt.value {
-		if first || v < min {
-			min, first = v, false
-		}
-	}
+	sort.Slice(ops, func(i, j int) bool { return ops[i].name < ops[j].name })
 	for _, ns := range w.Catalog().Structs {
 		if !types.Implements(types.NewPointer(ns.Named), exprIfc) || strings.HasPrefix(ns.Name, "Bad") {
 			continue
 		}
 		construct := "exprPrec(*" + ns.Name + ")"
-		pc, listed := pt.byType[ns.Name]
-		_, byOp := pt.byOp[ns.Name]
+		if levelType[ns.Name] {
+			// the operator-dependent types are decided per operator by C07/R2; here: some entry exists
+			okAny := ns.Name != "BinaryExpr" && ns.Name != "UnaryExpr"
+			if !okAny {
+				r.ok(rule, construct, ps.pos, "operator level type; every operator is decided by C07/R2")
+				continue
+			}
+			if _, e, und := ps.precOf(ns.Name, ""); e != "" {
+				if und {
+					r.undecided(rule, construct, ps.pos, e)
+				} else {
+					r.bad(rule, construct, ps.pos, "exprPrec has no case for this expression type: "+e)
+				}
+				continue
+			}
+			r.ok(rule, construct, ps.pos, "listed (operator level type; order checked by C07/R2)")
+			continue
+		}
+		v, e, und := ps.precOf(ns.Name, "")
+		if e != "" {
+			if und {
+				r.undecided(rule, construct, ps.pos, e)
+			} else {
+				r.bad(rule, construct, ps.pos, "exprPrec has no case for this expression type: its precedence is whatever the fall-through gives (a panic, or parentheses the source did not have): "+e)
+			}
+			continue
+		}
+		bad, undec := "", ""
+		for _, o := range ops {
+			wr, e := ps.wraps(o.prec, ns.Name, "")
+			if e != "" {
+				undec = e
+				break
+			}
+			if wr {
+				bad = fmt.Sprintf("atom printed at level %s: paren() wraps it in parentheses as an operand of %s (%s), parentheses the source did not have", ps.name(v), o.name, ps.name(o.prec))
+				break
+			}
+		}
 		switch {
-		case !listed && !byOp:
-			r.bad(rule, construct, pt.pos, "the type switch of exprPrec has no case for this expression type: its precedence is whatever the fall-through gives (a panic, or parentheses the source did not have)")
-		case levelType[ns.Name]:
-			r.ok(rule, construct, pt.pos, "listed (operator level type; order checked by C07/R2)")
-		case byOp:
-			r.bad(rule, construct, pt.pos, "an operand form that is not produced by any precedence level is given an operator-dependent precedence")
-		case pt.value[pc] != min:
-			r.bad(rule, construct, pt.pos, fmt.Sprintf("atom printed with precedence %s (%d), not the tightest value %d: paren() wraps it in parentheses under operators that bind tighter", pc, pt.value[pc], min))
+		case undec != "":
+			r.undecided(rule, construct, ps.pos, undec)
+		case bad != "":
+			r.bad(rule, construct, ps.pos, bad)
 		default:
-			r.ok(rule, construct, pt.pos, "atom at the tightest precedence "+pc)
+			r.ok(rule, construct, ps.pos, fmt.Sprintf("atom at %s: never parenthesised under any of the %d operators", ps.name(v), len(ops)))
 		}
 	}
 }
